@@ -388,6 +388,17 @@ Proof.
   apply cmp_nb; auto.
 Qed.
 
+(* IN over constants that are not boolean literals: rdflib's term equality is the
+   specification's || of = comparisons *)
+Lemma in3_nb t cs : nb t = true -> forallb nb cs = true -> in3 t cs = Some (existsb (N.eqb t) cs).
+Proof.
+  intros Nt. induction cs as [|c r IH]; intros H; [reflexivity|].
+  cbn [forallb] in H. apply andb_true_iff in H as [Nc Nr].
+  change (in3 t (c :: r)) with (or3b (ebv_of (cmp_spec OpEq t c)) (in3 t r)).
+  rewrite (IH Nr), <- (cmp_nb OpEq t c Nt Nc). cbn [cmp_impl existsb]. rewrite ebv_of_bool.
+  destruct (N.eqb t c); cbn; [reflexivity|]. destruct (existsb (N.eqb t) r); reflexivity.
+Qed.
+
 Lemma inter_empty_elim (a b : list var) v : nonempty (inter a b) = false -> In v a -> In v b -> False.
 Proof.
   intros E Ia Ib. assert (In v (inter a b)) by (unfold inter; apply filter_In; split; [exact Ia|now apply memv_in]).
@@ -470,6 +481,9 @@ with efrag (names : list term) (pushed : list var) (e : expr) {struct e} : bool 
   | ECmp _ a b => cmp_ok a b
   | EAnd a b | EOr a b => efrag names pushed a && efrag names pushed b
   | ENot a => efrag names pushed a
+  | EIn _ a cs => atom a && con_nb a && forallb nb cs
+  | ECoalesce a b => efrag names pushed a && efrag names pushed b
+  | EIf c a b => efrag names pushed c && efrag names pushed a && efrag names pushed b
   | EExists _ p =>
       match p with
       | Filter true _ e' q =>
@@ -1068,6 +1082,26 @@ Section PD.
       cbn [expr_td expr_bu]. unfold thaw.
       change (match eval_td ds g m1 p with [] => false | _ :: _ => true end) with (nonempty_l (eval_td ds g m1 p)).
       rewrite (IHx pushed S g m1 m2 Ng W1 W2 D H T). reflexivity.
+    - (* EIn *)
+      intros pos a _ cs pushed S g m1 full m2 _ _ _ _ H T. cbn in S.
+      apply andb_true_iff in S as [S Nc]. apply andb_true_iff in S as [At Cn].
+      destruct (atom_typed ds g m1 full m2 a At Cn) as [E Ty].
+      { intros v Iv. apply H. exact Iv. }
+      { intros v t Iv. apply T. cbn. apply in_or_app. now left. }
+      cbn. rewrite E. destruct (expr_bu ds g m2 a) as [t|] eqn:B; [|reflexivity].
+      rewrite (in3_nb t cs (Ty t eq_refl) Nc). reflexivity.
+    - (* ECoalesce *)
+      intros a IHa b IHb pushed S g m1 full m2 Ng W1 W2 D H T. cbn in S. apply andb_true_iff in S as [S1 S2]. cbn.
+      rewrite (IHa _ S1 g m1 full m2 Ng W1 W2 D), (IHb _ S2 g m1 full m2 Ng W1 W2 D); [reflexivity| | | |];
+        try (intros v Iv; apply H; cbn; apply in_or_app; auto);
+        intros v t Iv; apply T; cbn; apply in_or_app; auto.
+    - (* EIf *)
+      intros c IHc a IHa b IHb pushed S g m1 full m2 Ng W1 W2 D H T. cbn in S.
+      apply andb_true_iff in S as [S S3]. apply andb_true_iff in S as [S1 S2]. cbn.
+      rewrite (IHc _ S1 g m1 full m2 Ng W1 W2 D), (IHa _ S2 g m1 full m2 Ng W1 W2 D), (IHb _ S3 g m1 full m2 Ng W1 W2 D);
+        [reflexivity| | | | | |];
+        try (intros v Iv; apply H; cbn; repeat (apply in_or_app; auto; right); auto);
+        try (intros v t Iv; apply T; cbn; repeat (apply in_or_app; auto; right); auto).
   Qed.
 
   Theorem pushdown p : forall pushed, frag names pushed p = true ->
